@@ -27,8 +27,8 @@ def main() -> int:
     bad = None
     try:
         if rep.get('kind') == 'fsolve':
-            from checks.fsolve import explore_fsolve
-            r = explore_fsolve(rep['cfg'], replay_inputs=rep['inputs'])
+            from checks.fsolve import explore_fany
+            r = explore_fany(rep['cfg'], replay_inputs=rep['inputs'])
             print(f"  Fortran engine (machine code): {r['impl']}\n  Python engine: {r['python_engine']}")
             bad = r['bad']
         elif rep.get('kind') == 'loopfam' and 'cfg' in rep:
